@@ -637,7 +637,7 @@ static void tunnel_exec(const pchunk *q, int nq, const pchunk *r, int nr, int he
     }
 }
 static void mode_tunnel(int argc, char **argv) {
-    (void) argc; (void) argv;
+    int fullcuts = atoi(hx_arg(argc, argv, "--fullcuts", "1"));
     static const int STAT[] = { 200, 204, 101, 407, 403, 500 };
     static hx_buf q, r;
     for (int reqkind = 0; reqkind < 2; reqkind++)            /* 0 CONNECT, 1 GET with Upgrade */
@@ -666,11 +666,14 @@ static void mode_tunnel(int argc, char **argv) {
         TT.expect_tunnel = (status == 101) || (twoxx && payload >= 2 && reqkind == 0);
         TT.expect_http = http_resume && reqkind == 0;
         /* cut choices: none, or one cut in the +-3 window around the head end (both directions) */
-        for (int qc = -4; qc <= 3; qc++) for (int rc = -4; rc <= 3; rc++) for (int ad = 0; ad < 2; ad++) {
+        /* cut choices: none or one cut per direction; fullcuts: at EVERY position of each stream, otherwise in the +-3 window around the head end */
+        int qlo = fullcuts ? -(int) head : -4, qhi = fullcuts ? (int) (q.n - head) - 1 : 3, rlo = fullcuts ? -(int) rhead : -4, rhi = fullcuts ? (int) (r.n - rhead) - 1 : 3;
+        for (int qc = qlo; qc <= qhi; qc++) for (int rc = rlo; rc <= rhi; rc++) for (int ad = 0; ad < 2; ad++) {
             long id = tunnel_counter++;
             if (id % hx_shard_n != hx_shard_i || hx_deadline_hit()) continue;
             pchunk pq[2], pr[2]; int nq = 1, nr = 1, head_chunk = 0;
-            size_t qcut = qc == -4 ? 0 : head + (size_t) qc, rcut = rc == -4 ? 0 : rhead + (size_t) rc;
+            /* the lowest value of each range stands for "no cut" */
+            size_t qcut = qc == qlo ? 0 : head + (size_t) qc, rcut = rc == rlo ? 0 : rhead + (size_t) rc;
             if (qcut > 0 && qcut < q.n) { pq[0] = (pchunk) { q.p, (uint32_t) qcut }; pq[1] = (pchunk) { q.p + qcut, (uint32_t) (q.n - qcut) }; nq = 2; head_chunk = qcut >= head ? 0 : 1; }
             else pq[0] = (pchunk) { q.p, (uint32_t) q.n };
             if (rcut > 0 && rcut < r.n) { pr[0] = (pchunk) { r.p, (uint32_t) rcut }; pr[1] = (pchunk) { r.p + rcut, (uint32_t) (r.n - rcut) }; nr = 2; }
